@@ -48,7 +48,7 @@ PROPS = {
                  "(chosen goroutine, site) at decisions with >= 2 runnable goroutines) among runs in which at least one "
                  "decision deviated from the default schedule."),
         "tiers": {
-            "quick": {"cases": 480, "wall_s": 75, "seed": 1, "minimise_s": 40},
+            "quick": {"cases": 2400, "wall_s": 75, "seed": 1, "minimise_s": 40},
             "thorough": {"cases": 60000, "wall_s": 1500, "seed": 1001, "minimise_s": 120},
         },
         "probes_wanted": ["jobs>1", "mutex_contended", "unique_id_tie", "score_tie_skipped", "o3_compared",
@@ -80,7 +80,7 @@ PROPS = {
                  "publish in a fresh process, and one publish per enumerated writer-fault position. one evaluation = one simulated Publish. distinct_nontrivial = distinct "
                  "contended-schedule hashes of variant runs that deviated from the default schedule plus distinct (document, options, k, jobs, sticky) fault injections that fired."),
         "tiers": {
-            "quick": {"cases": 160, "wall_s": 90, "seed": 1, "minimise_s": 40, "case_budget_s": 300, "chunk": 60},
+            "quick": {"cases": 320, "wall_s": 90, "seed": 1, "minimise_s": 40, "case_budget_s": 300, "chunk": 60},
             "thorough": {"cases": 12000, "wall_s": 1800, "seed": 1001, "minimise_s": 120, "case_budget_s": 600, "chunk": 60},
         },
         "probes_wanted": ["jobs>1", "variants_compared", "fresh_process_compared", "writer_failed_with_jobs>1", "producer_left_blocked_after_failure", "files"],
